@@ -99,6 +99,14 @@ def cases(tier, seed):
         n = rnd.randrange(0, 201)
         spread = rnd.choice([2, 5, max(1, n // 2), max(1, n), 10 * n + 1])
         yield dict(kind="sort", ts=[rnd.randrange(spread) for _ in range(n)], feat=rnd.random() < 0.5)
+    # ---- the float expression the deductive contract of __getInsertionIndex ASSUMES about (specs/C04.py, assume_stmt):
+    #      2 ** (int(math.log(N) / math.log(2)) - 1) is an integer power of two, >= 1 and <= N / 2
+    top = 1 << (17 if q else 22)
+    for lo in range(2, top, 1 << 14):
+        yield dict(kind="first_step", lo=lo, hi=min(top, lo + (1 << 14)))
+    # (sizes below 2**47 only: from 2**48 - 1 observations on the float quotient rounds up; no track can be that long,
+    #  and the deductive contract carries the same bound as a precondition)
+    yield dict(kind="first_step", around=[(1 << e) + d for e in range(2, 48) for d in (-2, -1, 0, 1, 2) if 2 <= (1 << e) + d < (1 << 47)])
     # ---- chronological insertion (instants are even; odd instants fall strictly between)
     values = [0, 2, 4, 6] if q else [0, 2, 4, 6, 8, 10]
     for n in range(0, (9 if q else 11) + 1):
@@ -219,6 +227,21 @@ def check_case(case):
     if kind == "add":
         check_add(L, c, case)
         return dict(failures=c.fails, evaluations=c.n, nontrivial=c.n if case["n1"] + case["n2"] else 0)
+    if kind == "first_step":
+        import math, inspect, ast as _ast
+        # the expression is taken from the real source of Track.__getInsertionIndex on every run
+        src = inspect.getsource(L.Track._Track__getInsertionIndex)
+        rhs = [ln.split("=", 1)[1].strip() for ln in src.splitlines() if ln.strip().startswith("delta = 2 **")]
+        if len(rhs) != 1:
+            c.fails.append("the first-step statement `delta = 2 ** (...)` of __getInsertionIndex was not found: the assumption of the deductive contract has no counterpart")
+            return dict(failures=c.fails, evaluations=1, nontrivial=1)
+        code = compile(_ast.parse(rhs[0], mode="eval"), "<first-step>", "eval")
+        for N in (case.get("around") or range(case["lo"], case["hi"])):
+            c.n += 1
+            delta = eval(code, {"math": math, "N": N, "int": int})
+            if not (isinstance(delta, int) and delta >= 1 and delta & (delta - 1) == 0 and 2 * delta <= N):
+                c.fails.append("first dichotomy step for N=%d is %r: not a power of two in [1, N/2]" % (N, delta))
+        return dict(failures=c.fails, evaluations=c.n, nontrivial=c.n)
     ts, feat = case["ts"], case["feat"]
     n = len(ts)
     names = NAMES if (feat and n > 0) else []
